@@ -747,6 +747,13 @@ def _check_evaluate(ctx, rep, ev: FuncInfo):
                     if t in ('json.JSONDecodeError', 'JSONDecodeError', 'ValueError', 'Exception', '') or \
                             'JSONDecodeError' in t or 'ValueError' in t:
                         handled = True
+            if isinstance(par, ast.With):
+                # with contextlib.suppress(json.JSONDecodeError): value keeps the symbol text it already holds
+                for item in par.items:
+                    ce = item.context_expr
+                    if isinstance(ce, ast.Call) and norm(ce.func) in ('suppress', 'contextlib.suppress') and \
+                            any('JSONDecodeError' in norm(a) or norm(a) in ('ValueError', 'Exception') for a in ce.args):
+                        handled = True
             n = par
         rep.oblige('a JSON syntax error falls back to the symbol text', handled, '', ev.loc(c),
                    key='penman.constant:evaluate: JSONDecodeError handled', positive=False)
